@@ -339,9 +339,5 @@ def run(report: Report, tier: str, only: Optional[str] = None) -> None:
     from fjv.checks.c01 import prove_lemmas
     prove_lemmas(report)
     common.run_pool(py_config, cfgs, report)
-    try:
-        from fjv.llsx import c18_native
-    except ImportError:
-        report.outside.append('native engine: llsx harness not built yet')
-        return
-    c18_native.run(report, tier, only)
+    from fjv.llsx import c01_native
+    c01_native.run(report, tier, only, prop='C18')
